@@ -170,6 +170,35 @@ def fx_cmp(cfg, a, b, c):
                   M <= A, M <= B, M <= Cc, z3.Or(M == A, M == B, M == Cc))
 
 
+def fx_int_args(cfg, a, b, c):
+    "plain-int operands where the class accepts them: x + k, x - k, mul(x, k), mul(k, x), truth value"
+    F = _F(cfg)
+    S = 10 ** cfg['p']
+    x = F(a, True)
+    r1, r2 = x + b, x - b
+    dn, up = F.mul(x, b, round='down'), F.mul(b, x, round='up')
+    if not _is(F, r1, r2, dn, up):
+        return FALSE
+    A, B = lz(a), lz(b)
+    return z3.And(lz(r1._value) == A + B * S, lz(r2._value) == A - B * S, lz(dn._value) == A * B, lz(up._value) == A * B,
+                  _b(x.__bool__()) == (A != 0), lz(x._value) == A)
+
+
+def fx_div_int(cfg, a, b, c):
+    "div and muldiv with plain-int operands  (pre: b != 0)"
+    F = _F(cfg)
+    S = 10 ** cfg['p']
+    x = F(a, True)
+    dn, up = F.div(x, b, round='down'), F.div(x, b, round='up')
+    iv = F.div(b, b, round='up')
+    md = F.muldiv(x, b, b, round='up')
+    if not _is(F, dn, up, iv, md):
+        return FALSE
+    A, B = lz(a), lz(b)
+    D, U = lz(dn._value), lz(up._value)
+    return z3.And(floor_q(D, A, B), U == D + z3.If(D * B != A, 1, 0), lz(iv._value) == S, lz(md._value) == A)
+
+
 def fx_bad_round(cfg, a, b, c):
     "round other than up/down raises ValueError; zero divisors raise ZeroDivisionError (concrete law)"
     F = _F(cfg)
@@ -195,6 +224,7 @@ FIXED_LAWS = {
     'fx_addsub': (fx_addsub, None), 'fx_int_scale': (fx_int_scale, None), 'fx_floordiv_int': (fx_floordiv_int, 'b'),
     'fx_mul_op': (fx_mul_op, None), 'fx_div_op': (fx_div_op, 'b'), 'fx_mul': (fx_mul, None), 'fx_div': (fx_div, 'b'),
     'fx_muldiv': (fx_muldiv, 'c'), 'fx_cmp': (fx_cmp, None), 'fx_bad_round': (fx_bad_round, 'concrete'),
+    'fx_int_args': (fx_int_args, None), 'fx_div_int': (fx_div_int, 'b'),
 }
 
 
@@ -375,9 +405,26 @@ def rt_cmp(cfg, a, b, c, d):
                   z3.Or(mn * B == A * md, mn * D == C * md), mn * B * sb <= A * md * sb, mn * D * sd <= C * md * sd)
 
 
+def rt_int_mix(cfg, a, b, c, d):
+    "a plain int k = c on either side of every operator: the result is a Rational and exact  (pre: c != 0, c realised)"
+    R = _R()
+    x, k = R(a, b), c
+    A, B = lz(a), lz(b)
+    parts = [_exact(k + x, R, k * B + A, B), _exact(k - x, R, k * B - A, B), _exact(k * x, R, k * A, B),
+             _exact(x + k, R, A + k * B, B), _exact(x - k, R, A - k * B, B), _exact(x * k, R, k * A, B),
+             _exact(x / k, R, A, B * k)]
+    try:
+        q = k / x
+    except ZeroDivisionError:
+        parts.append(A == 0)
+    else:
+        parts.append(z3.And(A != 0, _exact(q, R, k * B, A)))
+    return z3.And(*parts)
+
+
 RATIONAL_LAWS = {
     'rt_addsub': (rt_addsub, None), 'rt_mul': (rt_mul, None), 'rt_div': (rt_div, 'c'), 'rt_muldiv': (rt_muldiv, 'c'),
-    'rt_cmp': (rt_cmp, None),
+    'rt_cmp': (rt_cmp, None), 'rt_int_mix': (rt_int_mix, 'c'),
 }
 
 
